@@ -258,8 +258,8 @@ every way `ups` the upload is handed to `Write` and every answer `down`: the pee
 application's bytes followed by end-of-stream after the half-close, and the application receives
 exactly the answer followed by end-of-stream after the close.  (The goroutine structure of the
 forwarder itself — two `io.Copy`, `closeAll` — is observed by the harness `fw` cases, not modelled.) -/
-theorem C10_forward_main (me : Bytes) (ups : List Bytes) (down : Bytes) :
-    holdsFw ups.flatten down (runForward me ups down) = true := by
+theorem C10_forward_main (me : Bytes) (ups : List Bytes) (down : Bytes) (ct cl : Bool) :
+    holdsFw ups.flatten down ct cl (runForward me ups down ct cl) = true := by
   have hwu : ∀ e ∈ ups.map Ev.write ++ [.closeWrite], evWF me e = true := by
     intro e he
     rcases List.mem_append.mp he with he | he
@@ -278,7 +278,7 @@ theorem C10_forward_main (me : Bytes) (ups : List Bytes) (down : Bytes) :
   rw [expected_writes_closeWrite] at hu
   have hde : (expected me [.write down, .close]).1 = down := by simp [expected]
   rw [hde] at hd
-  simp only [holdsFw, runForward, hu.2, hd.2, beq_self_eq_true, Bool.true_and, Bool.and_eq_true,
+  simp only [holdsFw, runForward, hu.2, hd.2, beq_self_eq_true, Bool.true_and, Bool.and_true, Bool.and_eq_true,
     List.contains_iff_mem]
   exact ⟨hu.1, hd.1⟩
 
@@ -329,7 +329,7 @@ example :
 example : (⟨tunnelIDFromString idA, crossnode.FrameTypeData, [1, 2, 3]⟩ : Frame).WF := by decide +kernel
 
 /-- The forwarding model reaches `done` and satisfies `holdsFw` on a concrete run (a test). -/
-example : holdsFw [1, 2, 3] [4, 5] (runForward idA [[1], [2, 3]] [4, 5]) = true := by decide +kernel
+example : holdsFw [1, 2, 3] [4, 5] true true (runForward idA [[1], [2, 3]] [4, 5] true true) = true := by decide +kernel
 
 /-- A hostile header (length `0xFFFFFFFF`) is refused with only the header allocated (a test). -/
 example :
